@@ -11,7 +11,8 @@ from .xlang import wrap32
 BOUNDARY = [0, 1, 2, 3, 7, 15, 16, 17, 255, 256, 65535, 65536, 65537, 2147483647,
             -1, -2, -16, -17, -255, -256, -65535, -65536, -65537, -2147483647, -2147483648]
 NAMES = ['x', 'y', 'z', 'w', 'k', 'm', 'a', 'b', 'c', 'd']
-STRINGS = ['a', 'abc', 'hello', '0123456', 'xy', 'The quick', '', 'a\nb', "q'\"\\t\t"]
+STRINGS = ['a', 'abc', 'hello', '0123456', 'xy', 'The quick', '', 'a\nb', "q'\"\\t\t", 'abcd', 'abcdefgh', 'abcdefghijk', 'abcdefghijkl',
+           'the quick brown fox jumps over the lazy dog 0123456789 THE END', '~!@#$%^&*()_+{}[]<>?/']
 CHARS = 'aZ09 !#&()*+-/<=>?@[]^_{}~'
 STREAMS_OUT = [0, 0, 0, 255, 7, 256, 512, 0x700, 0x7FF, 2048, 0x10200, -1, -256]
 STREAMS_IN = [0, 0, 0, 255, 3, 0x100, 0x300, 0x6AB, 0x800 + 0x300, -1]
@@ -355,6 +356,24 @@ class Gen:
                 # condition - here a read - is evaluated is outside the language definition: keep one arm a real statement
                 t = ('seq', [('skip',), ('skip',)])
             return ('if', c, t, f)
+        if x < 0.60 and not env.pure_only and 'get' in self.sys and 'put' in self.sys and env.counters:
+            # the classic filter loop: read until end of input (255), transform and write each byte
+            env.me.io = True
+            c = env.counters[0]
+            e1 = env.fork()
+            e1.counters = env.counters[1:]
+            e1.noassign = env.noassign | {c}
+            if c not in e1.ints:
+                e1.ints.append(c)
+                e1.safe.append(c)
+            body = self.stmt(e1, d - 1) if self.chance(0.5) else ('skip',)
+            rd = ('syscall', self.callee('get'), [lit(0)])
+            out = ('syscall', self.callee('put'), [self.int_expr(e1, 2, SAFE) if self.chance(0.5) else ('var', c), self.stream_expr(STREAMS_OUT)])
+            if c not in env.ints:
+                env.ints.append(c)
+                env.safe.append(c)
+            cond = r.choice([('bin', '~=', ('var', c), lit(255)), ('bin', '<', ('var', c), lit(255)), ('not', ('bin', '=', ('var', c), lit(255)))])
+            return ('seq', [('ass', ('var', c), rd), ('while', cond, ('seq', [out, body, ('ass', ('var', c), rd)]))])
         if x < 0.66 and env.counters:
             return self.counter_loop(env, d)
         if x < 0.72 and env.counters:
